@@ -143,10 +143,10 @@ def _quotes(scale):
     return quotes_of(scale)
 
 
-def initial(universe, fee, scale, deposit, rate=0.0):
+def initial(universe, fee, scale, deposit, rate=0.0, epsilon=None):
     cs = contracts_of(universe)
     q0 = _quotes(scale)[0]
-    b = make_broker(cs, deposit=deposit, fixed=fee[0], proportional=fee[1], quote=q0, rate=rate, markup=(0.01 if rate else 0.0))
+    b = make_broker(cs, deposit=deposit, fixed=fee[0], proportional=fee[1], quote=q0, rate=rate, markup=(0.01 if rate else 0.0), epsilon=epsilon)
     if rate:
         # start the accrual clock (as a first rebalance would) so that later rebalances do accrue interest
         b.accrued_interest(T0, True)
@@ -297,12 +297,12 @@ def observe(ob, ref, cs):
 # ---------------------------------------------------------------------------
 # BFS
 
-def bfs(universe, fee, depth, scale, deposit, ops, rate=0.0, on_state=None, max_states=None, first_ops=None, expand_violating=False):
+def bfs(universe, fee, depth, scale, deposit, ops, rate=0.0, on_state=None, max_states=None, first_ops=None, expand_violating=False, epsilon=None):
     """Breadth-first search.  Returns dict with counters, violations (list of
     (property, history, message)) and, if on_state is given, calls
     on_state(snapshot_bytes, ref, hist, depth) for every distinct state."""
     reset_clock()
-    b0, ref0, cs = initial(universe, fee, scale, deposit, rate)
+    b0, ref0, cs = initial(universe, fee, scale, deposit, rate, epsilon)
     seen = {broker_key(b0, cs)}
     frontier = deque([(snap(b0), ref0, ())])
     per_depth = [1]
@@ -386,12 +386,12 @@ def replay_history(universe, fee, scale, deposit, hist, rate=0.0):
     return out
 
 
-def collect_states(universe, fee, depth, scale, deposit, ops, rate=0.0):
+def collect_states(universe, fee, depth, scale, deposit, ops, rate=0.0, epsilon=None):
     """Every distinct state reachable within `depth` operations, as
     (snapshot bytes, reference ledger, history)."""
     out = []
     # states that C01/C05's own oracles object to are kept as start states all the same: the checks that start from them
     # (C03, C12, C13) judge their own statement there, they must not go blind where another property is broken too
-    r = bfs(universe, fee, depth, scale, deposit, ops, rate=rate, expand_violating=True,
+    r = bfs(universe, fee, depth, scale, deposit, ops, rate=rate, expand_violating=True, epsilon=epsilon,
             on_state=lambda sb, ref, hist, d: out.append((sb, ref, hist)))
     return out, r
